@@ -143,12 +143,13 @@ theorem loop_v1 {T} (pid : Id) (mw : Nat) (l : List Txn1) : ∀ (ms ms' : Mid) (
     l.foldlM (stepV1 pid mw) ms = .ok ms' →
     Inv T ms' ∧ Fresh T ms' R ∧ ms'.base = ms.base ∧
     Phi ms' + (l.map (·.fees.sum)).sum = Phi ms + claimsV1 ms l ∧ sfTot ms' = sfTot ms ∧
-    l.foldlM applyTransaction ms = .ok ms' := by
+    l.foldlM applyTransaction ms = .ok ms' ∧ ms.pool ≤ ms'.pool ∧
+    (CsOk ms → CsOk ms' ∧ Psi ms' + 10000 * claimsV1 ms l ≤ Psi ms + (ms'.pool - ms.pool) * sfTot ms) := by
   induction l with
   | nil =>
     intro ms ms' R _ hI _ hF _ _ _ h
     simp only [List.foldlM_nil] at h; cases h
-    exact ⟨hI, hF, rfl, by simp [claimsV1], rfl, rfl⟩
+    exact ⟨hI, hF, rfl, by simp [claimsV1], rfl, rfl, Nat.le_refl _, fun h => ⟨h, by simp [claimsV1]⟩⟩
   | cons t l ih =>
     intro ms ms' R hc hI hsupp hF hchk hnw hsfb h
     rw [List.foldlM_cons, bind_eq_ok] at h
@@ -165,16 +166,25 @@ theorem loop_v1 {T} (pid : Id) (mw : Nat) (l : List Txn1) : ∀ (ms ms' : Mid) (
       intro sp hsp e he
       have := List.all_eq_true.mp hchk.1 sp hsp
       rw [he] at this; simpa using this
-    obtain ⟨hI1, hF1, hb1, hP1, hS1, _⟩ := v1txn_conserves hc hI (hsupp t List.mem_cons_self) hF hlen
+    obtain ⟨hI1, hF1, hb1, hP1, hS1, hpl1, hsv1⟩ := v1txn_conserves hc hI (hsupp t List.mem_cons_self) hF hlen
       (hnw t List.mem_cons_self) hsfb hv ha
-    obtain ⟨hI2, hF2, hb2, hP2, hS2, ha2⟩ := ih ms1 ms' R (hb1 ▸ hc) hI1
+    obtain ⟨hI2, hF2, hb2, hP2, hS2, ha2, hpl2, hsv2⟩ := ih ms1 ms' R (hb1 ▸ hc) hI1
       (fun t' ht' => hb1 ▸ hsupp t' (List.mem_cons_of_mem _ ht')) hF1 hchk.2
       (fun t' ht' => hnw t' (List.mem_cons_of_mem _ ht')) (hS1 ▸ hsfb) h2
-    refine ⟨hI2, hF2, hb2.trans hb1, ?_, hS2.trans hS1, ?_⟩
+    refine ⟨hI2, hF2, hb2.trans hb1, ?_, hS2.trans hS1, ?_, Nat.le_trans hpl1 hpl2, ?_⟩
     · simp only [List.map_cons, List.sum_cons]
       unfold claimsV1; rw [ha]; simp only []
       omega
     · rw [List.foldlM_cons, bind_eq_ok]; exact ⟨ms1, ha, ha2⟩
+    · intro hcs
+      obtain ⟨c1, q1⟩ := hsv1 hcs
+      obtain ⟨c2, q2⟩ := hsv2 c1
+      refine ⟨c2, ?_⟩
+      unfold claimsV1; rw [ha]; simp only []
+      rw [hS1] at q2
+      have hsplit : (ms'.pool - ms.pool) * sfTot ms = (ms'.pool - ms1.pool) * sfTot ms + (ms1.pool - ms.pool) * sfTot ms := by
+        rw [← Nat.add_mul]; congr 1; unfold Cur at *; omega
+      rw [hsplit]; omega
 
 theorem loop_v2 {T} (mw : Nat) (l : List Txn2) : ∀ (ms ms' : Mid) (R : List (Kind × Id)),
     Ctx T ms.base → ms.base.child ≥ ms.base.P.ephemeralFix → Inv T ms →
@@ -183,12 +193,13 @@ theorem loop_v2 {T} (mw : Nat) (l : List Txn2) : ∀ (ms ms' : Mid) (R : List (K
     l.foldlM (stepV2 mw) ms = .ok ms' →
     Inv T ms' ∧ Fresh T ms' R ∧ ms'.base = ms.base ∧
     Phi ms' + (l.map (·.fee)).sum + (l.map Txn2.forfeits).sum = Phi ms + claimsV2 ms l ∧ sfTot ms' = sfTot ms ∧
-    l.foldlM applyV2Transaction ms = .ok ms' := by
+    l.foldlM applyV2Transaction ms = .ok ms' ∧ ms.pool ≤ ms'.pool ∧
+    (CsOk ms → CsOk ms' ∧ Psi ms' + 10000 * claimsV2 ms l ≤ Psi ms + (ms'.pool - ms.pool) * sfTot ms) := by
   induction l with
   | nil =>
     intro ms ms' R _ _ hI hF _ _ h
     simp only [List.foldlM_nil] at h; cases h
-    exact ⟨hI, hF, rfl, by simp [claimsV2], rfl, rfl⟩
+    exact ⟨hI, hF, rfl, by simp [claimsV2], rfl, rfl, Nat.le_refl _, fun h => ⟨h, by simp [claimsV2]⟩⟩
   | cons t l ih =>
     intro ms ms' R hc hfix hI hF hnw hsfb h
     rw [List.foldlM_cons, bind_eq_ok] at h
@@ -196,14 +207,23 @@ theorem loop_v2 {T} (mw : Nat) (l : List Txn2) : ∀ (ms ms' : Mid) (R : List (K
     unfold stepV2 at h1
     rw [bind_eq_ok] at h1; obtain ⟨u, hv, ha⟩ := h1
     simp only [List.flatMap_cons, List.append_assoc] at hF
-    obtain ⟨hI1, hF1, hb1, hP1, hS1, _⟩ := v2txn_conserves hc hfix hI hF (hnw t List.mem_cons_self) hsfb hv ha
-    obtain ⟨hI2, hF2, hb2, hP2, hS2, ha2⟩ := ih ms1 ms' R (hb1 ▸ hc) (hb1 ▸ hfix) hI1 hF1
+    obtain ⟨hI1, hF1, hb1, hP1, hS1, hpl1, hsv1⟩ := v2txn_conserves hc hfix hI hF (hnw t List.mem_cons_self) hsfb hv ha
+    obtain ⟨hI2, hF2, hb2, hP2, hS2, ha2, hpl2, hsv2⟩ := ih ms1 ms' R (hb1 ▸ hc) (hb1 ▸ hfix) hI1 hF1
       (fun t' ht' => hnw t' (List.mem_cons_of_mem _ ht')) (hS1 ▸ hsfb) h2
-    refine ⟨hI2, hF2, hb2.trans hb1, ?_, hS2.trans hS1, ?_⟩
+    refine ⟨hI2, hF2, hb2.trans hb1, ?_, hS2.trans hS1, ?_, Nat.le_trans hpl1 hpl2, ?_⟩
     · simp only [List.map_cons, List.sum_cons]
       unfold claimsV2; rw [ha]; simp only []
       cur_omega
     · rw [List.foldlM_cons, bind_eq_ok]; exact ⟨ms1, ha, ha2⟩
+    · intro hcs
+      obtain ⟨c1, q1⟩ := hsv1 hcs
+      obtain ⟨c2, q2⟩ := hsv2 c1
+      refine ⟨c2, ?_⟩
+      unfold claimsV2; rw [ha]; simp only []
+      rw [hS1] at q2
+      have hsplit : (ms'.pool - ms.pool) * sfTot ms = (ms'.pool - ms1.pool) * sfTot ms + (ms1.pool - ms.pool) * sfTot ms := by
+        rw [← Nat.add_mul]; congr 1; unfold Cur at *; omega
+      rw [hsplit]; omega
 
 -- ------------------------------------------------------------------ miner payouts, subsidy, expirations
 
@@ -418,7 +438,9 @@ theorem block_conserves {L : Ledger} {b : Block} {pid : Id} {msv : Mid}
     (hw : WF L) (hf : FreshIds L b) (hfix : L.child ≥ L.P.ephemeralFix) (hnw : SfNoWrap b)
     (hcov : IdListsCover L b pid) (hv : validateBlock L b pid = .ok msv) :
     ∃ ms, midApplyBlock (newMid L) b = .ok ms ∧ Inv (Tb L b) ms ∧ ms.base = L ∧
-      Phi ms + b.forfeits = V L + blockReward L + subsidyVal L + b.claims L ∧ sfTot ms = SFtot L := by
+      Phi ms + b.forfeits = V L + blockReward L + subsidyVal L + b.claims L ∧ sfTot ms = SFtot L ∧
+      L.pool ≤ ms.pool ∧
+      (CsOk (newMid L) → CsOk ms ∧ Psi ms + 10000 * b.claims L ≤ Psi (newMid L) + (ms.pool - L.pool) * SFtot L) := by
   obtain ⟨hvo, hvs, ms1, hl1, hl2⟩ := validateBlock_ok hv
   obtain ⟨hsupp, hexp, hcond⟩ := validateSupplement_ok hvs
   have hpay := validateMinerPayouts_ok (validateOrphan_ok hvo)
@@ -428,11 +450,11 @@ theorem block_conserves {L : Ledger} {b : Block} {pid : Id} {msv : Mid}
   unfold Block.created at hF0
   have hsf0 : sfTot (newMid L) < u64Limit := by rw [sfTot_newMid]; exact hw.sf_bound
   -- v1 transactions
-  obtain ⟨hI1, hF1, hb1, hP1, hS1, ha1⟩ := loop_v1 pid b.maxWeight b.txns1 (newMid L) ms1 _ hc hI0 hsupp hF0 hcov.1
+  obtain ⟨hI1, hF1, hb1, hP1, hS1, ha1, hpl1, hsv1⟩ := loop_v1 pid b.maxWeight b.txns1 (newMid L) ms1 _ hc hI0 hsupp hF0 hcov.1
     hnw.1 hsf0 hl1
   have hb1' : ms1.base = L := hb1
   -- v2 transactions
-  obtain ⟨hI2, hF2, hb2, hP2, hS2, ha2⟩ := loop_v2 b.maxWeight b.txns2 ms1 msv _ (hb1' ▸ hc) (hb1' ▸ hfix) hI1 hF1
+  obtain ⟨hI2, hF2, hb2, hP2, hS2, ha2, hpl2, hsv2⟩ := loop_v2 b.maxWeight b.txns2 ms1 msv _ (hb1' ▸ hc) (hb1' ▸ hfix) hI1 hF1
     hnw.2 (hS1 ▸ hsf0) hl2
   have hb2' : msv.base = L := hb2.trans hb1'
   -- miner payouts
@@ -460,7 +482,8 @@ theorem block_conserves {L : Ledger} {b : Block} {pid : Id} {msv : Mid}
   obtain ⟨ms5, hl5⟩ := hex
   obtain ⟨hI5, hF5, hb5, hP5, hS5, hp5⟩ := loop_expiring b.expiring _ ms5 [] (hb4' ▸ hc) hI4
     (fun x hx => ⟨hb4' ▸ hexp x hx, hcov.2 x hx⟩) (by simpa using hF4) hl5
-  refine ⟨ms5, ?_, hI5, hb5.trans hb4', ?_, ?_⟩
+  have hpool5 : ms5.pool = msv.pool := by rw [hp5, hp4, hp3]
+  refine ⟨ms5, ?_, hI5, hb5.trans hb4', ?_, ?_, ?_, ?_⟩
   · rw [midApplyBlock_eq]
     have hcond' : ¬ ((newMid L).base.child ≥ (newMid L).base.P.v2Require ∧ (b.txns1.length ≠ 0 ∨ b.expiring.length ≠ 0)) := hcond
     rw [if_neg hcond', bind_eq_ok]
@@ -479,5 +502,25 @@ theorem block_conserves {L : Ledger} {b : Block} {pid : Id} {msv : Mid}
     clear hv hvo hvs hl1 hl2 hl3 ha1 ha2 hF0 hF1 hF2 hF3
     cur_omega
   · rw [hS5, hS4, hS3, hS2, hS1, sfTot_newMid]
+  · rw [hpool5]; exact Nat.le_trans hpl1 hpl2
+  · intro hcs
+    obtain ⟨c1, q1⟩ := hsv1 hcs
+    obtain ⟨c2, q2⟩ := hsv2 c1
+    have s35 : SfSame msv ms5 :=
+      (sfSame_payouts hl3).trans ((sfSame_subsidy ms3 b sub).trans (sfSame_expiring hl5))
+    obtain ⟨q5, c5⟩ := Psi_shift s35 0 (by rw [hpool5]; rfl) c2
+    refine ⟨c5, ?_⟩
+    have hcl : b.claims L = claimsV1 (newMid L) b.txns1 + claimsV2 ms1 b.txns2 := by
+      unfold Block.claims; rw [ha1]
+    rw [hcl, q5, hpool5]
+    rw [hS1, sfTot_newMid] at q2
+    rw [sfTot_newMid] at q1
+    have hnp : (newMid L).pool = L.pool := rfl
+    rw [hnp] at q1 hpl1
+    have hsplit : (msv.pool - L.pool) * SFtot L = (msv.pool - ms1.pool) * SFtot L + (ms1.pool - L.pool) * SFtot L := by
+      rw [← Nat.add_mul]; congr 1; unfold Cur at *; omega
+    rw [hsplit]
+    simp only [Nat.zero_mul, Nat.add_zero]
+    omega
 
 end Sia.Ledger
